@@ -788,10 +788,19 @@ def c19(ctx):
         dsyms, alloc = [], []
         for l in out.splitlines():
             parts = l.split()
-            if len(parts) >= 3 and parts[-2] in ("D", "d", "B", "b", "C"):
-                dsyms.append(l)
             if len(parts) >= 2 and parts[-2] == "U" and parts[-1] in ("malloc", "calloc", "realloc", "free", "posix_memalign", "mmap", "sbrk", "aligned_alloc", "strdup"):
                 alloc.append(l)
+        # writable sections only (.data.rel.ro* is read-only once relocated and is not state)
+        od = ctx.sh(["objdump", "-t", p["static"]]).stdout.decode()
+        for l in od.splitlines():
+            m = re.match(r"^[0-9a-f]+\s+(.{7})\s+(\S+)\s+[0-9a-f]+\s+(\S+)$", l)
+            if not m:
+                continue
+            flags, sec, name = m.group(1), m.group(2), m.group(3)
+            if name.startswith(".") or "d" in flags.replace(" ", "")[1:] or ("O" not in flags and sec != "*COM*" and not re.match(r"^\.t(data|bss)", sec)):
+                continue            # objects only (not section / file symbols); thread-local objects carry no 'O' flag
+            if sec == "*COM*" or re.match(r"^\.(data|bss|tdata|tbss)(\.|$)", sec) and not sec.startswith(".data.rel.ro"):
+                dsyms.append("%s %s" % (sec, name))
         ctx.extra_cov["census"] = {"writable_data_symbols": dsyms[:10], "allocator_imports": alloc[:10],
                                    "undefined_imports": sorted(set(l.split()[-1] for l in out.splitlines() if len(l.split()) >= 2 and l.split()[-2] == "U" and not l.split()[-1].startswith("tinyjambu")))}
         for l in dsyms:
